@@ -1,27 +1,52 @@
 import CV.Proofs.QuantExamples
 import CV.Proofs.QuantCatLink
+import CV.Proofs.QuantNoUb
 /-!
-# C20 (component `quant`): the unsafe sites of the float-derived models are unreachable
+# C20 (component `quant`): no unsafe precondition of the float-derived models is reachable
 
-Each `unsafe` occurrence in `quantize.rs`, `categorical/lazy_contiguous.rs` and on the encoder
-path of the eager `…_fast` models is a `Fault.ub site` branch of the model:
+`quantize.rs` no longer contains an `unsafe` block: after D25 (symbol-table iterator) and D26
+(`quantile_function`) every conversion to `NonZero` is the checked `into_nonzero().expect(..)`.
+A `Distribution` is a *safe* trait and may return anything, so the statements come in two forms:
 
-| site | Rust | discharged by |
-|------|------|---------------|
-| `quant.dec.nonzero`   | `into_nonzero_unchecked` at the end of `quantile_function` | `C20_leaky_dec_no_fault` |
-| `quant.table.nonzero` | `into_nonzero_unchecked` in the symbol-table iterator      | `C20_leaky_table_no_fault` |
-| `contiguous.enc.index`, `contiguous.enc.nonzero` | `get_unchecked`, `into_nonzero_unchecked` in the eager encoder | `C20_eager_enc_no_fault` |
-| `pmf.get_unchecked(..symbol)` (lazy encoder) | guarded by `pmf.get(symbol)?`: the model returns `none` first (`C09_lazy_out_of_support`) | — |
+* **for ARBITRARY distributions** (`gl`, `gr` any functions — non-monotone, outside `[0, 1]`,
+  NaN …; any hint, any fuel): the encoder, the decoder and the symbol table never end in a
+  `Fault.ub` (`C20_leaky_no_ub_for_any_distribution`).  What a broken CDF *can* reach are the
+  documented **panics** ("Invalid underlying continuous probability distribution.", or an
+  arithmetic-overflow panic in a checked build) — nowhere UB.  The pre-repair code reached
+  `NonZero::new_unchecked(0)` from safe code in both places (D25, D26; reproducers in
+  `corpus/quant/repro.txt`).
+* **for valid distributions** (`GOk`) and for the categorical models under TB-F1/TB-F2: *no*
+  `Fault` of any kind — no overflow of `symbol ± step` or of a probability, no failing
+  `assert!`/`expect`/`panic!` (`C20_leaky_dec_no_fault`, `C20_leaky_table_no_fault`,
+  `C20_leaky_enc_no_fault`, `C20_eager_enc_no_fault`, `C20_lazy_no_fault`).  The remaining unsafe
+  sites on these paths are in `contiguous.rs` (`get_unchecked`, `into_nonzero_unchecked` of the
+  eager encoder: `contiguous.enc.*`, discharged by `C20_eager_enc_no_fault` and by `cat`'s
+  theorems from `ValidCdf`) and the `pmf.get_unchecked(..symbol)` of the lazy encoder, which is
+  guarded by `pmf.get(symbol)?` (the model returns `.ok none` first: `C09_lazy_out_of_support`).
 
-More strongly, *no* `Fault` of any kind (overflowing `+`/`-` on symbols or probabilities, the
-`assert!`, `expect`, the "invalid distribution" `panic!`) is reachable: every theorem below has
-the form "… `= .ok _`".  The hypotheses are those of C03 (`TBF1Fast`, `TBF2`, `GOk`); where they
-fail (a distribution whose CDF is not monotone) the documented panics are reachable, which the
-crate's documentation states.  Label: **partial** by nature (DESIGN §6 C20): model-level
-obligations proved; memory behaviour validated by the checked build.
+Label: **partial** by nature (DESIGN §6 C20): model-level obligations proved; memory behaviour
+validated by the checked build (the invalid-CDF generator/oracle class runs under it).
 -/
 namespace CV.Quant
 open CV
+
+/-- **C20, the leaky quantizer has no reachable UB for ANY distribution**: whatever the two
+    external functions return (no `GOk`), whatever the hint, the quantile, the symbol and the
+    fuel, neither `left_cumulative_and_probability`, nor `quantile_function`, nor `symbol_table()`
+    ends in a `Fault.ub` — only `.ok`, a panic fault, a missing recorded value or exhausted fuel -/
+theorem C20_leaky_no_ub_for_any_distribution (m : LQ) (gl gr : Ext) :
+    (∀ s site, m.enc gl gr s ≠ .error (.fault (.ub site))) ∧
+    (∀ fuel hint q site, m.dec gl gr fuel hint q ≠ .error (.fault (.ub site))) ∧
+    (∀ fuel s left site, m.table gl fuel s left ≠ .error (.fault (.ub site))) := by
+  refine ⟨fun s site h => ?_, fun fuel hint q site h => ?_, fun fuel s left site h => ?_⟩
+  · have := noUb_enc (m := m) (gl := gl) (gr := gr) s _ h; simp [SErr.isUb] at this
+  · have := noUb_dec (m := m) (gl := gl) (gr := gr) fuel hint q _ h; simp [SErr.isUb] at this
+  · have := noUb_table (m := m) (gl := gl) fuel s left _ h; simp [SErr.isUb] at this
+
+/-- the D26 shape: a CDF that returns `2.0` at `min + 0.5` (`u8` symbols, `u8` probabilities,
+    `P = 8`) makes `quantile_function` panic — it used to reach `NonZero::new_unchecked(0)` -/
+example : (⟨⟨8, false⟩, 8, 8, 0, 3, 252⟩ : LQ).dec (fun _ => some 255) (fun _ => some 255) 40 0 5
+    = .error (.fault (.panic "quant.dec.expect")) := by rfl
 
 /-- **C20, `quantile_function`**: total, for every hint, no `Fault` (in particular the unchecked
     `NonZero` is sound and `symbol ± step` never overflows), and it stays inside the support -/
@@ -84,6 +109,7 @@ example := C20_lazy_no_fault (B := 16) (P := 12) (n := 4) (h := exH) (k0 := fun 
 
 end CV.Quant
 
+#print axioms CV.Quant.C20_leaky_no_ub_for_any_distribution
 #print axioms CV.Quant.C20_leaky_dec_no_fault
 #print axioms CV.Quant.C20_leaky_table_no_fault
 #print axioms CV.Quant.C20_leaky_enc_no_fault
